@@ -1,6 +1,6 @@
 (* C09: the state inventory and (re)initialisation policy REGENERATED from /repo on this run. *)
 From Coq Require Import List NArith Bool Arith String.
-From RG.Ast Require Import Tree Walker WalkerProof WalkSpec WfCheck.
+From RG.Ast Require Import Tree Walker WalkerProof WalkSpec WfCheck WalkPanic.
 From RG.Engine Require Import RunState.
 From RGW Require Import Gen_AstSchema Gen_Walker Gen_WalkTables Gen_WalkState Gen_RunnerState Inst_Walker.
 Import ListNotations.
@@ -56,3 +56,16 @@ Proof. reflexivity. Qed.
 
 (* a run of one file from whatever an earlier run left behind: events of the walk (reports are a function of them, C01) *)
 Definition run_file_from (fuel : nat) (st : wst) (n : node) : rres := model_walk fuel n st [].
+
+(* the bracket of walk() read from source this run is Push + defer Pop *)
+Lemma frame_is_defer_pop : gen_frame = FrameDeferPop.
+Proof. vm_compute. reflexivity. Qed.
+
+Lemma table_ok_defer : forall k, kind_ok AF FrameDeferPop (gen_table k) (gen_spec k) = true.
+Proof. rewrite <- frame_is_defer_pop. exact table_ok. Qed.
+
+Lemma walk_panic_gen : forall (P : ev -> bool) fuel n st E, wf gen_spec n -> (height n < fuel)%nat ->
+  let evs := events gen_spec n (w_dead st) (w_func st) (w_stack st) in
+  walk AF FrameDeferPop gen_table P fuel n st E =
+    if hasp P evs then RPanic (w_stack st) (E ++ cut P evs) else ROk st (E ++ evs).
+Proof. intros P. exact (walk_panic AF gen_table gen_spec table_ok_defer P). Qed.
